@@ -382,10 +382,11 @@ Definition mods (sc : script) : list N := map N.of_nat (seq 0 (length (s_mods sc
 Definition mask (sc : script) (w : world) : N :=
   fold_right (fun m acc => 2 * acc + (if active (w_mod w m) then 1 else 0)) 0 (mods sc).
 
-(* SimLifecycle::at_sim_start: stages outermost, modules in tree order *)
+(* SimLifecycle::at_sim_start: stages outermost, modules in tree order; a module that an earlier
+   stage deactivated (it panicked or shut itself down) is skipped *)
 Definition start_one (sc : script) (stage m : N) (acc : world * list erec) : world * list erec :=
   let '(w, tr) := acc in
-  if stage <? c_stages (cfg sc m) then
+  if (stage <? c_stages (cfg sc m)) && active (w_mod w m) then
     let '(w', l) := around sc 0 m (fun s => fst (at_sim_start (nmods sc) (cfg sc m) 0 m stage s)) w in
     (w', tr ++ [{| e_kind := KStart stage m; e_time := 0; e_items := l |}])
   else acc.
